@@ -300,22 +300,6 @@ func c07R3R4(c *Ctx, p *Prog) {
 	}
 	// result allocs by name
 	mv, pd := namedResult(fn, 1), namedResult(fn, 2)
-	if mv == nil || pd == nil {
-		c.Undec(r3, "iterativeDeepen#results", fn.Pos(), "named results move/ponder not found as locals")
-		return
-	}
-	fromActive := func(v ssa.Value) (idx int64, ok bool) {
-		l, isLd := stripConv(v).(*ssa.UnOp)
-		if !isLd || l.Op != token.MUL {
-			return 0, false
-		}
-		ia, isIA := l.X.(*ssa.IndexAddr)
-		if !isIA || !isCallValueTo(ia.X, "search.(*pv).active") {
-			return 0, false
-		}
-		k, isc := constOf(ia.Index)
-		return k, isc
-	}
 	// the PV report
 	var report *ssa.Call
 	var reports []*ssa.Call
@@ -366,89 +350,9 @@ func c07R3R4(c *Ctx, p *Prog) {
 		}
 		return false
 	}
-	nAdopt := 0
-	var sampleVal ssa.Value
-	for _, ci := range callsIn(fn, "search.(*Search).alphaBeta") {
-		sampleVal, _ = ci.(ssa.Value)
-	}
-	for _, r := range *mv.Referrers() {
-		st, ok := r.(*ssa.Store)
-		if !ok || st.Addr != ssa.Value(mv) {
-			continue
-		}
-		if k, isc := constOf(st.Val); isc && k == 0 {
-			continue
-		}
-		idx, isAct := fromActive(st.Val)
-		if !isAct {
-			// fallback adoption: must come from the generated frame, with ponder cleared before
-			bad := moveOrigin(st.Val, []string{"move.(*Store).Frame"}, map[ssa.Value]bool{}, 0)
-			cleared := false
-			for _, r2 := range *pd.Referrers() {
-				if s2, ok := r2.(*ssa.Store); ok && s2.Addr == ssa.Value(pd) {
-					if k, isc := constOf(s2.Val); isc && k == 0 && instrDominates(s2, st) {
-						cleared = true
-					}
-				}
-			}
-			c.Check(bad == nil && cleared, r3, "iterativeDeepen#fallback-adoption", st.Pos(), "a move adopted outside the PV comes from the generated frame and the ponder move is cleared first (origin ok: %v, ponder cleared: %v)", bad == nil, cleared)
-			continue
-		}
-		nAdopt++
-		key := "iterativeDeepen#adoption"
-		c.Check(idx == 0, r3, key+"#first-move", st.Pos(), "the adopted move is pv.active()[0]")
-		// no search between adoption and report
-		searched := ""
-		for _, spec := range []string{"search.(*Search).alphaBeta", "search.(*Search).quiescence"} {
-			for _, d := range callsIn(fn, spec) {
-				if r, _ := reachAvoiding(st, d.(ssa.Instruction), func(x ssa.Instruction) bool { return x == ssa.Instruction(report) || isDepthIncr(x) }); r {
-					searched = p.Rel(d.Pos())
-				}
-			}
-		}
-		c.Check(searched == "", r3, key+"#no-search-before-report", st.Pos(), "no search call can run between adopting the move and reporting the variation %s", searched)
-		c.Check(instrDominates(st, report) || st.Block() == report.Block() || reaches(st, report), r3, key+"#reported", st.Pos(), "the iteration's report follows the adoption")
-		// ponder in the same block: 0, or active()[1] when the line has at least two moves
-		okPonder := false
-		for _, r2 := range *pd.Referrers() {
-			s2, ok := r2.(*ssa.Store)
-			if !ok || s2.Addr != ssa.Value(pd) || s2.Block() != st.Block() {
-				continue
-			}
-			if k, isc := constOf(s2.Val); isc && k == 0 {
-				okPonder = true
-			} else if i2, ok := fromActive(s2.Val); ok && i2 == 1 {
-				// block excluded from len==0 and len==1
-				ex0, ex1 := false, false
-				for _, ce := range controllingConds(st.Block()) {
-					if bo, ok := ce.Cond.(*ssa.BinOp); ok && bo.Op == token.EQL && !ce.True {
-						if lc, ok := stripConv(bo.X).(*ssa.Call); ok {
-							if bi, ok := lc.Call.Value.(*ssa.Builtin); ok && bi.Name() == "len" && isCallValueTo(lc.Call.Args[0], "search.(*pv).active") {
-								if k, isc := constOf(bo.Y); isc && k == 0 {
-									ex0 = true
-								} else if isc && k == 1 {
-									ex1 = true
-								}
-							}
-						}
-					}
-				}
-				okPonder = ex0 && ex1
-			}
-		}
-		c.Check(okPonder, r3, key+"#ponder", st.Pos(), "together with the move, ponder is set to pv.active()[1] only when the line has at least two moves, else cleared")
-		// only with awOk
-		okAw := false
-		for _, ce := range controllingConds(st.Block()) {
-			if ph, ok := ce.Cond.(*ssa.Phi); ok && ce.True {
-				if windowOK(ph, sampleVal, map[ssa.Value]bool{}) {
-					okAw = true
-				}
-			}
-		}
-		c.Check(okAw, r3, key+"#inside-window", st.Pos(), "the result is adopted only after the aspiration loop ended with alpha < score < beta")
-	}
-	c.Floor(r3, nAdopt, 2, "PV adoptions in iterativeDeepen")
+	_ = mv
+	_ = pd
+	c07Adoption(c, p, fn, reports, isDepthIncr)
 
 	// R4
 	for i, rp := range reports {
@@ -609,4 +513,370 @@ func scoreParam(fn *ssa.Function, i int) string {
 		}
 	}
 	return "?"
+}
+
+// c07Adoption decides, per path from a root search call to the end of the iteration (or the return),
+// what the result move and ponder hold and what is known about the line and the window.
+func c07Adoption(c *Ctx, p *Prog, fn *ssa.Function, reports []*ssa.Call, isDepthIncr func(ssa.Instruction) bool) {
+	const r3 = "C07.R3"
+	_, mvPhis, mvAlloc := resultWeb(fn, 1)
+	_, pdPhis, pdAlloc := resultWeb(fn, 2)
+	isActive := func(v ssa.Value) bool { return isCallValueTo(stripConv(v), "search.(*pv).active") }
+	// the outer loop header: block of the phi that a depth increment feeds
+	var hdr *ssa.BasicBlock
+	allInstrs(fn, func(in ssa.Instruction) {
+		if isDepthIncr(in) {
+			hdr = stripConv(in.(*ssa.BinOp).X).(*ssa.Phi).Block()
+		}
+	})
+	if hdr == nil {
+		c.Undec(r3, "iterativeDeepen#adoption", fn.Pos(), "outer iteration loop not identified")
+		return
+	}
+	isReport := func(in ssa.Instruction) bool {
+		for _, r := range reports {
+			if in == ssa.Instruction(r) {
+				return true
+			}
+		}
+		return false
+	}
+	type res struct {
+		bad   string
+		pos   token.Pos
+		count int
+	}
+	checks := map[string]*res{}
+	note := func(key string, ok bool, pos token.Pos, why string) {
+		r := checks[key]
+		if r == nil {
+			r = &res{}
+			checks[key] = r
+		}
+		r.count++
+		if !ok && r.bad == "" {
+			r.bad, r.pos = why, pos
+		}
+	}
+	undec := map[string]string{}
+	nAdopt, nPonder, nPaths := 0, 0, 0
+	complete := true
+	searches := callsIn(fn, "search.(*Search).alphaBeta")
+	for _, sc := range searches {
+		sample, _ := sc.(ssa.Value)
+		args := sc.Common().Args
+		if len(args) < 4 {
+			continue
+		}
+		alpha, beta := args[2], args[3]
+		start := sc.Block()
+		ok := enumBlockPaths(start, func(from, to *ssa.BasicBlock) bool { return to == hdr }, 200000, func(bp *bpath) {
+			if bp.End == "panic" {
+				return
+			}
+			if bp.End == "arrive" && bp.Arrive != hdr && bp.Arrive != start {
+				// closing an inner loop: covered by the paths that leave it
+				inner := true
+				for _, ph := range []map[*ssa.Phi]bool{mvPhis, pdPhis} {
+					for q := range ph {
+						if q.Block() == bp.Arrive {
+							inner = false
+						}
+					}
+				}
+				if inner {
+					return
+				}
+			}
+			nPaths++
+			// events on the path
+			var mvV, pdV ssa.Value // nil = unchanged
+			reportAt, searchAfter := -1, []int{}
+			var adoptLoadAt []int
+			ord := 0
+			var reportCall *ssa.Call
+			bp.instrsOnPath(sc.(ssa.Instruction), func(in ssa.Instruction, at int) {
+				ord++
+				switch x := in.(type) {
+				case *ssa.Store:
+					if mvAlloc != nil && x.Addr == ssa.Value(mvAlloc) {
+						mvV = bp.resolveAt(x.Val, at)
+					}
+					if pdAlloc != nil && x.Addr == ssa.Value(pdAlloc) {
+						pdV = bp.resolveAt(x.Val, at)
+					}
+				case *ssa.Call:
+					if isReport(x) {
+						reportAt, reportCall = ord, x
+					}
+					switch objName(calleeObj(x)) {
+					case "search.(*Search).alphaBeta", "search.(*Search).quiescence":
+						searchAfter = append(searchAfter, ord)
+					}
+				case *ssa.UnOp:
+					if x.Op == token.MUL {
+						if ia, ok := x.X.(*ssa.IndexAddr); ok && isActive(ia.X) {
+							adoptLoadAt = append(adoptLoadAt, ord)
+						}
+					}
+				}
+			})
+			final := func(i int, phis map[*ssa.Phi]bool, al *ssa.Alloc, cur ssa.Value) ssa.Value {
+				if al != nil {
+					return cur
+				}
+				var v ssa.Value
+				if bp.End == "return" {
+					last := bp.Blocks[len(bp.Blocks)-1]
+					ret := last.Instrs[len(last.Instrs)-1].(*ssa.Return)
+					if i >= len(ret.Results) {
+						return nil
+					}
+					v = bp.resolve(returnedValue(ret, i))
+				} else {
+					for q := range phis {
+						if q.Block() == bp.Arrive {
+							v = bp.edgeValue(q)
+						}
+					}
+					if v == nil {
+						return nil
+					}
+				}
+				if q, ok := v.(*ssa.Phi); ok && phis[q] {
+					return nil // the value the region started with
+				}
+				return v
+			}
+			mvV = final(1, mvPhis, mvAlloc, mvV)
+			pdV = final(2, pdPhis, pdAlloc, pdV)
+			classify := func(v ssa.Value) (string, int64) {
+				if v == nil {
+					return "unchanged", 0
+				}
+				if k, isc := constOf(v); isc && k == 0 {
+					return "zero", 0
+				}
+				if l, ok := stripConv(v).(*ssa.UnOp); ok && l.Op == token.MUL {
+					if ia, ok := l.X.(*ssa.IndexAddr); ok && isActive(ia.X) {
+						if k, isc := constOf(ia.Index); isc {
+							return "line", k
+						}
+					}
+				}
+				if moveOrigin(v, []string{"move.(*Store).Frame"}, map[ssa.Value]bool{}, 0) == nil {
+					return "fallback", 0
+				}
+				if call, ok := stripConv(v).(*ssa.Call); ok {
+					if h := call.Call.StaticCallee(); h != nil && isOwn(h) && relPkg(fnPkgPath(h)) == "search" && objName(calleeObj(call)) != "search.(*pv).active" {
+						return "fallback", 0
+					}
+				}
+				return "other", 0
+			}
+			mk, mi := classify(mvV)
+			pk, pi := classify(pdV)
+			// what the path knows: length of the line, score against the window
+			lo, hi := int64(0), int64(1<<30)
+			relA, relB := "", "" // relation of sample to alpha / beta: lt le gt ge
+			for _, pc := range bp.Conds {
+				bo, ok := pc.V.(*ssa.BinOp)
+				if !ok {
+					continue
+				}
+				x, y, op := stripConv(bo.X), stripConv(bo.Y), bo.Op
+				if lc, ok := y.(*ssa.Call); ok {
+					if bi, ok := lc.Call.Value.(*ssa.Builtin); ok && bi.Name() == "len" {
+						x, y, op = y, x, swapCmp(op)
+					}
+				}
+				if lc, ok := x.(*ssa.Call); ok {
+					if bi, ok := lc.Call.Value.(*ssa.Builtin); ok && bi.Name() == "len" && isActive(lc.Call.Args[0]) {
+						if k, isc := constOf(y); isc {
+							if !pc.True {
+								op = negCmp(op)
+							}
+							switch op {
+							case token.EQL:
+								lo, hi = max(lo, k), min(hi, k)
+							case token.NEQ:
+								if k == lo {
+									lo++
+								}
+								if k == hi {
+									hi--
+								}
+							case token.LSS:
+								hi = min(hi, k-1)
+							case token.LEQ:
+								hi = min(hi, k)
+							case token.GTR:
+								lo = max(lo, k+1)
+							case token.GEQ:
+								lo = max(lo, k)
+							}
+						}
+						continue
+					}
+				}
+				if sample == nil {
+					continue
+				}
+				if y == sample {
+					x, y, op = y, x, swapCmp(op)
+				}
+				if x != sample {
+					continue
+				}
+				if !pc.True {
+					op = negCmp(op)
+				}
+				rel := map[token.Token]string{token.LSS: "lt", token.LEQ: "le", token.GTR: "gt", token.GEQ: "ge"}[op]
+				if rel == "" {
+					continue
+				}
+				if y == stripConv(alpha) {
+					relA = rel
+				}
+				if y == stripConv(beta) {
+					relB = rel
+				}
+			}
+			pos := sc.Pos()
+			if mvV != nil && mvV.Pos().IsValid() {
+				pos = mvV.Pos()
+			}
+			switch mk {
+			case "line":
+				nAdopt++
+				note("iterativeDeepen#adoption#first-move", mi == 0, pos, "the adopted move is pv.active()["+itoa(mi)+"], not the first move of the line")
+				if lo < 1 {
+					undec["iterativeDeepen#adoption#first-move"] = "the line is indexed on a path that does not establish it is non-empty"
+				}
+				switch pk {
+				case "zero":
+					note("iterativeDeepen#adoption#ponder", true, pos, "")
+				case "line":
+					nPonder++
+					note("iterativeDeepen#adoption#ponder", pi == 1 && lo >= 2, pos, "with the move, ponder is set to pv.active()["+itoa(pi)+"] on a path that only knows the line has at least "+itoa(lo)+" move(s)")
+				case "unchanged":
+					note("iterativeDeepen#adoption#ponder", false, pos, "a new move is adopted while the ponder move of an earlier iteration is kept (it need not be legal after the new move)")
+				default:
+					undec["iterativeDeepen#adoption#ponder"] = "ponder value on an adoption path not recognised"
+				}
+				switch {
+				case relA == "gt" && relB == "lt":
+					note("iterativeDeepen#adoption#inside-window", true, pos, "")
+				case relA == "" && relB == "":
+					undec["iterativeDeepen#adoption#inside-window"] = "no comparison of the search result with the window bounds found on an adoption path"
+				default:
+					note("iterativeDeepen#adoption#inside-window", false, pos, "the result is adopted on a path where the score is only known to be "+orq(relA)+" alpha and "+orq(relB)+" beta: a fail-low/fail-high line would be played")
+				}
+				// no search between reading the line and reporting it
+				if reportAt >= 0 && len(adoptLoadAt) > 0 {
+					a, b := adoptLoadAt[0], reportAt
+					if a > b {
+						a, b = b, a
+					}
+					clean := true
+					for _, s := range searchAfter {
+						if s > a && s < b {
+							clean = false
+						}
+					}
+					note("iterativeDeepen#adoption#no-search-before-report", clean, pos, "a search call runs between adopting the move and reporting the variation")
+				}
+				if bp.Arrive == start && bp.End == "arrive" {
+					note("iterativeDeepen#adoption#no-search-before-report", false, pos, "the root is searched again after a move was adopted and before the iteration is reported")
+				}
+			case "unchanged":
+				switch pk {
+				case "unchanged", "zero":
+				case "line", "fallback":
+					note("iterativeDeepen#adoption#ponder", false, sc.Pos(), "ponder is replaced on a path that keeps the previous move")
+				}
+				// a non-empty line reported without adopting its first move
+				if reportAt >= 0 && reportCall != nil && bp.End != "return" || (reportAt >= 0 && bp.End == "return") {
+					if hi >= 1 && relA == "gt" && relB == "lt" {
+						note("iterativeDeepen#adoption#reported", false, reportCall.Pos(), "a variation that may be non-empty is reported on a path that does not adopt its first move: the move finally returned is not the first move of the most recent reported variation")
+					} else {
+						note("iterativeDeepen#adoption#reported", true, sc.Pos(), "")
+					}
+				}
+			case "fallback":
+				note("iterativeDeepen#fallback-adoption", pk == "zero", pos, "a move adopted outside the PV must clear the ponder move (ponder is "+pk+")")
+			case "zero":
+				// result reset to the null move: only acceptable if nothing had been adopted — left to C06
+			default:
+				undec["iterativeDeepen#adoption#first-move"] = "value assigned to the result move not recognised"
+			}
+			if mk == "line" && reportAt >= 0 {
+				note("iterativeDeepen#adoption#reported", true, pos, "")
+			}
+		})
+		if !ok {
+			complete = false
+		}
+	}
+	if !complete {
+		c.Undec(r3, "iterativeDeepen#adoption", fn.Pos(), "path enumeration exceeded its budget")
+		return
+	}
+	keys := []string{"iterativeDeepen#adoption#first-move", "iterativeDeepen#adoption#ponder", "iterativeDeepen#adoption#inside-window", "iterativeDeepen#adoption#no-search-before-report", "iterativeDeepen#adoption#reported", "iterativeDeepen#fallback-adoption"}
+	for _, k := range keys {
+		r := checks[k]
+		switch {
+		case r != nil && r.bad != "":
+			c.Fail(r3, k, r.pos, "%s", r.bad)
+		case undec[k] != "":
+			c.Undec(r3, k, fn.Pos(), "%s", undec[k])
+		case r != nil:
+			c.Ok(r3, k, fn.Pos(), "holds on all %d paths from the root search call that concern it", r.count)
+		default:
+			c.Undec(r3, k, fn.Pos(), "no path from the root search call exercises this obligation (%d paths)", nPaths)
+		}
+	}
+	c.Floor(r3, nAdopt, 1, "paths adopting the first move of the PV")
+	c.Floor(r3+".ponder", nPonder, 1, "paths setting ponder from the PV")
+}
+
+func orq(s string) string {
+	if s == "" {
+		return "unrelated to"
+	}
+	return s
+}
+
+func itoa(i int64) string { return fmt.Sprintf("%d", i) }
+
+func swapCmp(op token.Token) token.Token {
+	switch op {
+	case token.LSS:
+		return token.GTR
+	case token.LEQ:
+		return token.GEQ
+	case token.GTR:
+		return token.LSS
+	case token.GEQ:
+		return token.LEQ
+	}
+	return op
+}
+
+func negCmp(op token.Token) token.Token {
+	switch op {
+	case token.LSS:
+		return token.GEQ
+	case token.LEQ:
+		return token.GTR
+	case token.GTR:
+		return token.LEQ
+	case token.GEQ:
+		return token.LSS
+	case token.EQL:
+		return token.NEQ
+	case token.NEQ:
+		return token.EQL
+	}
+	return op
 }
